@@ -244,7 +244,16 @@ def run(prop: str, tier: str, seed: int) -> int:
         # nested terms are sampled, stratified by the set of operand kinds / by template and container
         firing = [c for c in cases if c.get('simulated') or c.get('fired', 0) >= 2 or (c.get('fired', 0) == 1 and len(c['names']) <= 3)
                   or ('fired' in c and len(c['names']) <= 2)]          # and every chain of one or two operators
-        one4 = [c for c in cases if not c.get('simulated') and c.get('fired', 0) == 1 and len(c['names']) > 3]
+        def repeated_pair(c):
+            """two adjacent pairs with the same pair of classes: a rule decision about one must not be reused for the other"""
+            ks = [t['k'] for t in c['term']['ch']]
+            pairs = list(zip(ks, ks[1:]))
+            return len(set(pairs)) < len(pairs)
+
+        firing += [c for c in cases if not c.get('simulated') and c.get('fired', 0) == 1 and len(c['names']) > 3
+                   and repeated_pair(c)]
+        one4 = [c for c in cases if not c.get('simulated') and c.get('fired', 0) == 1 and len(c['names']) > 3
+                and not repeated_pair(c)]
         firing += rng.sample(one4, min(len(one4), 300))
         quiet = [c for c in cases if 'fired' in c and c['fired'] == 0 and not c.get('simulated') and len(c['names']) > 2]
         nestd = [c for c in cases if 'fired' not in c]
